@@ -28,7 +28,12 @@ UID = 0x11
 
 @st.composite
 def _piece(draw, framing):
-    kind = draw(st.sampled_from(['rand', 'rand', 'long', 'flipped', 'truncated', 'foreign', 'delims', 'huge-header']))
+    kind = draw(st.sampled_from(['rand', 'rand', 'long', 'flipped', 'truncated', 'foreign', 'delims', 'huge-header', 'huge-header', 'badbody']))
+    if kind == 'badbody':
+        # correct checksum around a PDU the decoder chokes on (quantity larger than the data that follows)
+        n = draw(st.integers(2, 9))
+        bad = bytes([0x10, 0, 1, 0, n, 2, 0, 5])
+        return refframe.build(framing, UID, bad)
     pdu = specpdu.encode('req:6', {'address': 1, 'value': draw(st.integers(0, 0xFFFF))})
     if kind == 'rand':
         return draw(st.binary(min_size=1, max_size=40))
@@ -45,7 +50,10 @@ def _piece(draw, framing):
     if kind == 'huge-header':
         # start of a frame that announces a long body which never comes
         if framing == 'rtu':
-            return bytes([UID, 0x10, 0, 1, 0, 0x7B, 0xF6]) + draw(st.binary(min_size=0, max_size=6))
+            fc, pos = draw(st.sampled_from([(0x10, 6), (0x0F, 6), (0x17, 10), (0x14, 2), (0x15, 2)]))
+            head = bytearray([UID, fc] + [0] * 12)
+            head[pos] = draw(st.one_of(st.integers(0xF0, 0xFF), st.integers(0x80, 0xFF)))
+            return bytes(head[:pos + 1]) + draw(st.binary(min_size=0, max_size=6))
         if framing == 'ascii':
             return b':' + draw(st.binary(min_size=0, max_size=10)).hex().upper().encode()
         return b'{' + bytes([UID, 0x10]) + draw(st.binary(min_size=0, max_size=10)).replace(b'}', b'|')
